@@ -210,3 +210,7 @@ func SymbolicTruncate(on bool)    { panic(unsupportedNative("SymbolicTruncate"))
 func LastTruncate() (int64, bool) { return 0, false }
 
 func KnownFaultRegion(trigger bool, key string) {}
+
+func Digest(name string, v uint64) { fmt.Printf("ZZVERIF-DIGEST %s=%d\n", name, v) }
+
+func PokeDelete(path string) { os.Remove(path) }
